@@ -110,7 +110,8 @@ impl Monitor for C20 {
             if rng.chance(1, 3) { s.join = Some(Join { outer: rng.chance(1, 2), table: "u".into(), file: "/data/u file's.log".into(), left: ("t".into(), "k".into()), right: ("u".into(), "k".into()) }); }
             if rng.chance(1, 4) { s.from_file = Some("some dir/in put.log".into()); }
             if s.limit.is_none() && rng.chance(1, 2) { s.limit = Some(rng.below(100) as u64); }
-            (s.tokens(Paren::Full), Some(s))
+            // minimal parentheses put operator tokens next to each other (`6 - - 2`, `a * - b`): what lies between them must not matter either
+            (s.tokens(if rng.chance(1, 2) { Paren::Full } else { Paren::Minimal }), Some(s))
         };
         let base = join_tokens(&toks);
         let single: &[&[&str]] = &[&["case"], &["space+"], &["space-"], &["comment"], &["lead", "trail"], &["comment-end"]];
